@@ -298,21 +298,21 @@ func genC17(t *rapid.T) (CaseC17, map[string]bool) {
 	return c, feats
 }
 
-func TestC17(t *testing.T) {
-	rapid.Check(t, func(t *rapid.T) {
-		c, feats := genC17(t)
-		var cls []string
-		for k := range feats {
-			cls = append(cls, k)
-		}
-		sort.Strings(cls)
-		cls = append(cls, "policy="+c.Opts.Policy)
-		c17Rec.Eval(cls...)
-		if feats["elevator-group>=2"] || feats["prioritised"] {
-			c17Rec.NontrivialCase(vt.Fingerprint(c), func() any { return c })
-		}
-		vt.Run(t, c17Rec, c, checkC17)
-	})
+func TestC17(t *testing.T) { rapid.Check(t, propC17) }
+
+func propC17(t *rapid.T) {
+	c, feats := genC17(t)
+	var cls []string
+	for k := range feats {
+		cls = append(cls, k)
+	}
+	sort.Strings(cls)
+	cls = append(cls, "policy="+c.Opts.Policy)
+	c17Rec.Eval(cls...)
+	if feats["elevator-group>=2"] || feats["prioritised"] {
+		c17Rec.NontrivialCase(vt.Fingerprint(c), func() any { return c })
+	}
+	vt.Run(t, c17Rec, c, checkC17)
 }
 
 func TestC17Table(t *testing.T) {
